@@ -652,7 +652,12 @@ def ivPopBack (base : Nat) (m : Mem) (n : Nat) : Except LErr (Mem × Nat) :=
 /-- `clear()` and the destructor: `ranges::destroy(*this)` -/
 def ivClear (base : Nat) (m : Mem) (n : Nat) : Except LErr (Mem × Nat) := svClear base m n
 
-/-- copy constructor: `uninitialized_copy(other.begin(), other.end(), begin()); _size = other._size` -/
+/-- copy constructor: `uninitialized_copy(other.begin(), other.end(), begin()); _size = other._size`.
+    `requires is_trivially_copy_constructible_v<T>`: the defaulted member copies storage and size as bytes, which is
+    the same `ns` trivial copy constructions (the bytes beyond `size()` are raw storage on both sides); likewise
+    `~inplace_vector() requires is_trivially_destructible_v<T> = default` and `ranges::destroy(*this)` both end the
+    lives of `[0, size())`.  (static_vector selects its storage on `is_trivial_v<T>`; an element type with a user-provided
+    default constructor — every kind here — has the non-trivial storage that is modelled.) -/
 def ivCopyConstruct (k : Kind) (m : Mem) (dst src ns : Nat) : Except LErr (Mem × Nat) :=
   svConstructFrom k false m dst src ns
 
